@@ -38,7 +38,7 @@ type Call struct {
 }
 
 var callNames = []string{"m.String", "m.WriteTo", "f.LLString", "b.LLString", "inst.LLString", "v.String", "v.Ident", "v.Type", "g.LLString", "f.String+Ident+Type", "term.LLString",
-	"metadata def Ident+LLString", "alias/ifunc LLString", "typedef String+LLString", "operands String", "param LLString", "named metadata LLString", "m.WriteTo(plain io.Writer)", "m.WriteTo(writer that stalls until the other printers are done)"}
+	"metadata def Ident+LLString", "alias/ifunc LLString", "typedef String+LLString", "operands String", "param LLString", "named metadata LLString", "m.WriteTo(plain io.Writer)", "m.WriteTo(writer that stalls until the other printers are done)", "m.WriteTo(*os.File)", "m.WriteTo(closed *os.File)"}
 
 func (c Call) String() string {
 	return fmt.Sprintf("%s(%d,%d,%d)", callNames[c.K%len(callNames)], c.A, c.B, c.C)
@@ -47,7 +47,7 @@ func (c Call) String() string {
 // C13Scenario is one run.
 type C13Scenario struct {
 	Module string   `json:"module"`
-	Start  string   `json:"start"` // fresh | printed | func-printed
+	Start  string   `json:"start"` // fresh | printed | stale | func-printed | file-failed
 	Tasks  [][]Call `json:"tasks"`
 	Tape   *Tape    `json:"tape"`
 }
@@ -150,6 +150,31 @@ func doCall(m *ir.Module, c Call) (string, bool) {
 		if f := fn(); f != nil && len(f.Params) > 0 {
 			return f.Params[c.B%len(f.Params)].LLString(), true
 		}
+	case 19:
+		// A real file (code may take another path for *os.File: buffering, ReadFrom,
+		// copy_file_range); what arrives in the file is what counts.
+		f, err := os.CreateTemp("", "c13-*.ll")
+		if err != nil {
+			panic("harness: cannot create temp file: " + err.Error())
+		}
+		name := f.Name()
+		n, werr := m.WriteTo(f)
+		f.Close()
+		b, _ := os.ReadFile(name)
+		os.Remove(name)
+		return fmt.Sprintf("n=%d err=%v\n%s", n, werr, b), true
+	case 20:
+		// A file that has been closed: every Write fails (the error path of
+		// whatever the library does for files).
+		f, err := os.CreateTemp("", "c13-*.ll")
+		if err != nil {
+			panic("harness: cannot create temp file: " + err.Error())
+		}
+		name := f.Name()
+		f.Close()
+		n, werr := m.WriteTo(f)
+		os.Remove(name)
+		return fmt.Sprintf("n=%d failed=%v", n, werr != nil), true
 	case 18:
 		// A writer that, at one of its Write calls, does not return before the
 		// printers of the other tasks have finished (a pipe whose reader is busy
@@ -212,6 +237,12 @@ func applyStart(m *ir.Module, start string) {
 		if len(m.Funcs) > 0 {
 			_ = m.Funcs[0].LLString()
 		}
+	case "file-failed":
+		// Printed once, and one write into a file has failed (the file was
+		// closed): whatever the library keeps for file destinations has been
+		// through its error path before the printers start.
+		_ = m.String()
+		doCall(m, Call{K: 20})
 	case "stale":
 		// Printed once, then extended: the IDs left by the print are stale and
 		// the next print has to renumber (writes under the mutexes again).
@@ -399,7 +430,7 @@ func c13Run(sc *C13Scenario) *c13Outcome {
 	}
 	curScenario = sc
 	race0 := raceLogSize()
-	simrt.Load(sc.Tape.config())
+	simrt.Load(sc.Tape.configKeep())
 	simrt.SeamsOn(false, false)
 	res := simrt.RunTasks(fns, 60*time.Second)
 	out.stats = simrt.Snapshot()
@@ -487,7 +518,7 @@ func c13Run(sc *C13Scenario) *c13Outcome {
 	// print them sequentially.
 	{
 		var aft, aftTwin string
-		simrt.Load((&Tape{}).config())
+		simrt.Load((&Tape{}).configKeep())
 		panT, _ := protect(func() { simCall(func() { staleEdit(twin); aftTwin = twin.String() }) })
 		if !panT {
 			panM, msg := protect(func() { simCall(func() { staleEdit(m); aft = m.String() }) })
@@ -590,6 +621,20 @@ var edgeChoices = []int{0, 10, 30, 60, 100}
 func c13GenScenario(r *rng, srcs []*moduleSource) *C13Scenario {
 	sc := &C13Scenario{}
 	src := srcs[r.intn(len(srcs))]
+	if r.chance(1, 8) {
+		// Stress modules (hundreds of distinct identifiers / constants / functions:
+		// whatever is cached or hashed per distinct value meets growth, collisions
+		// and eviction there) get an eighth of the runs.
+		var stress []*moduleSource
+		for _, s := range srcs {
+			if strings.Contains(s.Name, "print/many") {
+				stress = append(stress, s)
+			}
+		}
+		if len(stress) > 0 {
+			src = stress[r.intn(len(stress))]
+		}
+	}
 	sc.Module = src.Name
 	switch x := r.intn(12); {
 	case x < 5:
@@ -641,8 +686,13 @@ func c13GenScenario(r *rng, srcs []*moduleSource) *C13Scenario {
 		}
 		c := Call{K: k, A: r.intn(64), B: r.intn(64), C: r.intn(64)}
 		calls = append(calls, c)
-		if r.chance(1, 3) && !crowd {
+		if r.chance(1, 3) {
+			// the same call again (a crowd sometimes repeats it several times:
+			// estimates and adaptive state need a few rounds to drift)
 			calls = append(calls, c)
+			if crowd && r.chance(1, 2) {
+				calls = append(calls, c, c)
+			}
 		}
 		for i := 0; i < nt; i++ {
 			mine := calls
@@ -658,10 +708,26 @@ func c13GenScenario(r *rng, srcs []*moduleSource) *C13Scenario {
 			sc.Tasks = append(sc.Tasks, mine)
 		}
 	}
+	if r.chance(1, 10) && (sc.Start == "printed" || sc.Start == "stale") {
+		// Printers that write into real files; in half of these runs a write into a
+		// closed file has failed before they start, and one of them may fail again.
+		if r.chance(1, 2) {
+			sc.Start = "file-failed"
+		}
+		for i := range sc.Tasks {
+			sc.Tasks[i] = []Call{{K: 19}}
+			if r.chance(1, 3) {
+				sc.Tasks[i] = append(sc.Tasks[i], Call{K: 19})
+			}
+		}
+		if r.chance(1, 3) {
+			sc.Tasks[0] = append([]Call{{K: 20}}, sc.Tasks[0]...)
+		}
+	}
 	moduleOnly := true
 	for _, t := range sc.Tasks {
 		for _, c := range t {
-			if k := c.K % len(callNames); k != 0 && k != 1 && k != 17 {
+			if k := c.K % len(callNames); k != 0 && k != 1 && k != 17 && k != 19 && k != 20 {
 				moduleOnly = false
 			}
 		}
@@ -672,7 +738,14 @@ func c13GenScenario(r *rng, srcs []*moduleSource) *C13Scenario {
 		sc.Tasks[0] = []Call{{K: 18, A: r.intn(2), B: r.intn(400)}}
 	}
 	sc.Tape = genTape(r, TapeParams{NSched: 2048, MeanGap: gapChoices[r.intn(len(gapChoices))], EdgePct: edgeChoices[r.intn(len(edgeChoices))], EarlyPct: 50, NPool: 512})
-	sc.Tape.StepCap = 20000000
+	// The step cap only has to catch a livelock; it grows with the amount of
+	// printing the run does (a crowd repeating its calls on a 60 KB module needs
+	// well over 20 M statements).
+	total := 0
+	for _, t := range sc.Tasks {
+		total += len(t)
+	}
+	sc.Tape.StepCap = 30000000 * int64(total+1)
 	return sc
 }
 
@@ -721,7 +794,7 @@ func c13Search() {
 				"switches": o.stats.Switches, "statements": o.stats.Steps, "blocked_on_mutex": o.stats.Blocked, "first_switches": traceStrings(o.trace, 6)})
 		}
 		if *flagSelf {
-			emit(outRec{T: "event", Seed: runSeed, Detail: fmt.Sprintf("idx=%d trace=%016x steps=%d switches=%d blocked=%d class=%s sig=%s", idx, o.stats.TraceHash, o.stats.Steps, o.stats.Switches, o.stats.Blocked, o.class, o.sig)})
+			emit(outRec{T: "event", Seed: runSeed, Detail: fmt.Sprintf("idx=%d trace=%016x steps=%d switches=%d blocked=%d class=%s sig=%s uncontrolled=%d", idx, o.stats.TraceHash, o.stats.Steps, o.stats.Switches, o.stats.Blocked, o.class, o.sig, o.stats.PermUncontrolled)})
 		}
 		if o.class != "" {
 			failures++
@@ -909,7 +982,9 @@ func c13Candidates(raw json.RawMessage) []interface{} {
 				if sc.Start != "printed" {
 					// keep all tasks identical
 					for t := range c.Tasks {
-						c.Tasks[t] = append(c.Tasks[t][:j:j], c.Tasks[t][j+1:]...)
+						if j < len(c.Tasks[t]) && len(c.Tasks[t]) > 1 {
+							c.Tasks[t] = append(c.Tasks[t][:j:j], c.Tasks[t][j+1:]...)
+						}
 					}
 				} else {
 					c.Tasks[i] = append(c.Tasks[i][:j:j], c.Tasks[i][j+1:]...)
